@@ -36,6 +36,10 @@ pub struct Scn {
     /// the pack is opened again (nothing cached, no decoder started) and the reads repeated this many times
     #[serde(default)]
     pub rounds: u32,
+    /// "" = one std thread per reader; "rayon" = the readers are tasks on rayon's global pool (the usual par_iter
+    /// extraction: the reading threads are then workers of a pool the library itself may want to use)
+    #[serde(default)]
+    pub pool: String,
     pub threads: Vec<Vec<ReadOp>>,
 }
 
@@ -140,6 +144,33 @@ pub fn run(s: &Scn) {
             let nops = s.threads.iter().map(|o| o.len()).min().unwrap_or(0);
             let use_barrier = s.barrier && s.threads.iter().all(|o| o.len() == nops);
             let barrier = Arc::new(std::sync::Barrier::new(s.threads.len()));
+            if s.pool == "rayon" {
+                // (a barrier needs every task on a worker of its own: only with at most as many tasks as workers)
+                let use_barrier = use_barrier && s.threads.len() <= rayon::current_num_threads();
+                rayon::scope(|sc| {
+                    for (t, ops) in s.threads.iter().enumerate() {
+                        let pack = Arc::clone(&pack);
+                        let barrier = Arc::clone(&barrier);
+                        let ops = ops.clone();
+                        sc.spawn(move |_| {
+                            for (k, op) in ops.iter().enumerate() {
+                                if use_barrier {
+                                    barrier.wait();
+                                }
+                                let r = catch(|| do_read(&pack, op));
+                                let (res, err) = match r {
+                                    Ok(Ok(true)) => ("equal", String::new()),
+                                    Ok(Ok(false)) => ("differs", String::new()),
+                                    Ok(Err(e)) => ("err", e),
+                                    Err(p) => ("panic", p),
+                                };
+                                emit(json!({"ev":"ReadOk","reader":t,"k":k,"idx":op.idx,"off":op.off,"len":op.len,"mode":op.mode,"res":res,"err":err}));
+                            }
+                        });
+                    }
+                });
+                continue;
+            }
             for (t, ops) in s.threads.iter().enumerate() {
                 let pack = Arc::clone(&pack);
                 let barrier = Arc::clone(&barrier);
